@@ -586,7 +586,7 @@ def rule_dispose_target(ctx, m, files=None, rid="O14-target"):
     return r
 
 
-def rule_overload_pairs(ctx, m, cls="Qentem::Value", rid="SB-overload", floor=3):
+def rule_overload_pairs(ctx, m, cls="Qentem::Value", rid="SB-overload", floor=2):
     """SB-overload: the copying (const T &) and the moving (T &&) overload of one operation are two implementations of one
     document operation and must make the same kind decisions: the kind predicates they apply to this value, to the source and to
     the source's elements agree (a pair in which one overload forwards to the other is one implementation and is skipped).  Sibling
@@ -1589,4 +1589,822 @@ def rule_fast_digits(ctx, m, rid="IDX-digits"):
                  "`%s` is scanned for digits up to `%s` and a constant number of digits, and the function returns unless the scan consumed all of a non-empty text" % (ptr, ln) if ok else
                  "%s: any text reaches the unchecked conversion (':' counts as ten, more than nine digits wrap the index)" % (
                      "no loop validates `%s` as decimal digits before the call" % ptr if scan is None else "the digit scan is not followed by a return for a partial or empty match"), f.loc(c))
+    return r
+
+
+def rule_finder_resync(ctx, m, rid="PR-resync"):
+    """PR-resync: parse() lets the finder deliver the next tag, but the heads of <if>, <elseif> and <else> are scanned by hand with
+    a local cursor; the position after the head becomes the start of the block's content (case.Offset = cursor) and the tags found
+    from then on are collected as the block's sub-tags.  The renderer copies the text between that start and each sub-tag, so
+    every sub-tag must lie at or after it: before the finder is asked for the next match it has to be moved to the cursor
+    (finder.SetOffset(cursor)) -- otherwise a tag inside the head (<else {var:n}>) is recorded in front of the content start and the
+    copy length underflows.  Must-analysis on the CFG: at every finder.Next() that follows a `X.Offset = cursor` of a case record
+    on its path, SetOffset(cursor) was called after the cursor's last change."""
+    r = Rule(rid, "after a block's content start is taken from a hand-moved cursor the finder is moved to that cursor before it searches on", floor=2)
+    pf = m.fn("Qentem::TemplateCore::parse")
+    ctx.note_fn(pf)
+    blocks = pf.blocks()
+    # cursors: integer locals that are assigned to a field named Offset of a case record (a reference local / Insert result)
+    starts = {}
+    for x in pf.walk():
+        n = pf.nodes[x]
+        if n["k"] == "BinaryOperator" and n["op"] == "=":
+            lh = pf.nodes[pf.strip(n["ch"][0])]
+            rh = pf.nodes[pf.strip(n["ch"][1])]
+            if lh["k"] in ("MemberExpr", "CXXDependentScopeMemberExpr") and lh.get("n") == "Offset" and rh["k"] == "DeclRefExpr" and rh.get("dk") == "var" and lh.get("ch") and \
+                    "case" in pf.text(lh["ch"][0]).lower():
+                starts[x] = rh["d"]
+    if not starts:
+        r.broke("parse: no content start of a case record is taken from a local cursor")
+        return r
+    cursors = set(starts.values())
+
+    def is_next(x):
+        n = pf.nodes[x]
+        return n["k"] in ("CallExpr", "CXXMemberCallExpr") and pf.call_simple_name(x) == "Next" and pf.call_receiver(x) is not None and pf.text(pf.call_receiver(x)) == "finder"
+
+    def sync_of(x):
+        n = pf.nodes[x]
+        if n["k"] in ("CallExpr", "CXXMemberCallExpr") and pf.call_simple_name(x) == "SetOffset" and pf.call_receiver(x) is not None and pf.text(pf.call_receiver(x)) == "finder":
+            a = pf.call_args(x)
+            if a:
+                an = pf.nodes[pf.strip(a[0])]
+                if an["k"] == "DeclRefExpr":
+                    return an.get("d")
+        return None
+    # state: frozenset of ("need", d) / ("sync", d); must-analysis for sync (intersection), may for need (union): keep as pair
+    entry = pf.cfg["entry"]
+    state = {entry: (frozenset(), frozenset())}
+    work = [entry]
+    bad = {}
+    ok_sites = set()
+    it = 0
+    while work and it < 20000:
+        it += 1
+        bid = work.pop()
+        need, sync = state[bid]
+        need, sync = set(need), set(sync)
+        for e in blocks[bid]["el"]:
+            x = e.get("n")
+            if not isinstance(x, int) or e.get("k"):
+                continue
+            n = pf.nodes[x]
+            tgt = None
+            if n["k"] == "UnaryOperator" and n["op"] in ("++", "--"):
+                tgt = n["ch"][0]
+            elif n["k"] == "CompoundAssignOperator" or (n["k"] == "BinaryOperator" and n["op"] == "="):
+                tgt = n["ch"][0]
+            if tgt is not None and pf.nodes[pf.strip(tgt)].get("d") in cursors:
+                sync.discard(pf.nodes[pf.strip(tgt)]["d"])
+            if n["k"] == "DeclStmt":
+                for d in n["decls"]:
+                    if d.get("d") in cursors:
+                        sync.discard(d["d"])
+                        need.discard(d["d"])
+            if n["k"] in ("CallExpr", "CXXMemberCallExpr"):
+                # a cursor handed to a callee by reference may be moved by it
+                if pf.call_simple_name(x) not in ("SetOffset",):
+                    for a in pf.call_args(x):
+                        an = pf.nodes[pf.strip(a)]
+                        if an["k"] == "DeclRefExpr" and an.get("d") in cursors and an.get("lv"):
+                            prm = None
+                            sync.discard(an["d"])
+                s_ = sync_of(x)
+                if s_ in cursors:
+                    sync.add(s_)
+                if is_next(x):
+                    for d in list(need):
+                        if d not in sync:
+                            bad.setdefault(d, x)
+                    need.clear()
+            if x in starts and starts[x] not in sync:
+                need.add(starts[x])      # not yet in step with the finder: it has to be before the next search
+        for (s_, k_, p_) in dataflow.successors(pf, blocks[bid]):
+            if s_ not in state:
+                state[s_] = (frozenset(need), frozenset(sync))
+                work.append(s_)
+            else:
+                on, os_ = state[s_]
+                nn, ns = on | frozenset(need), os_ & frozenset(sync)
+                if (nn, ns) != (on, os_):
+                    state[s_] = (nn, ns)
+                    work.append(s_)
+    for x, d in sorted(starts.items()):
+        r.ob(pf.q, pf.text(x)[:50], d not in bad or False, "the finder is moved to this cursor before the next search on every path" if d not in bad else
+             "`%s` at %s searches on from the finder's old position: a tag inside the head that was scanned by hand is collected as a sub-tag IN FRONT of this content start, and the renderer's copy length underflows" % (
+                 pf.text(bad[d])[:20], pf.loc(bad[d])[0] if isinstance(pf.loc(bad[d]), tuple) else pf.loc(bad[d])), pf.loc(x))
+    return r
+
+
+def rule_narrow_index(ctx, m, rid="NARROW-index"):
+    """NARROW-index: some fields of the parsed tag records are positions the renderer uses directly -- as a subscript or added to a
+    pointer (the loop level into the stack of loop items, the first sub-tag of the true/false part of an inline if).  They are
+    8 bits wide; the parser stores them through a narrowing conversion of a count it keeps in a wider local.  Truncated, such a
+    position names a DIFFERENT object (level 256 is level 0: the inner loop overwrites the item of the outer one; sub-tag 256 is
+    sub-tag 0: the slice lengths underflow).  The fields are found from the renderer (fields of tag records used as subscripts or
+    pointer offsets); every narrowing store into one of them must be dominated by a comparison of the stored quantity with a
+    constant that fits the field, on whose failing edge the store is not reached."""
+    r = Rule(rid, "a count narrowed into an index field of a tag record was compared with the field's range first", floor=2)
+    index_fields = set()
+    for f in m.functions:
+        if f.inst or not f.cfg or f.cls != "Qentem::TemplateCore":
+            continue
+        for x in f.walk():
+            n = f.nodes[x]
+            idx = None
+            if n["k"] == "ArraySubscriptExpr":
+                idx = n["ch"][1]
+            elif n["k"] in ("BinaryOperator", "CompoundAssignOperator") and n.get("op") in ("+", "+=") and f.nodes[f.strip_casts(n["ch"][0])].get("tk") == "ptr":
+                idx = n["ch"][1]
+            if idx is not None:
+                base_t = (f.nodes[f.strip_casts(n["ch"][0])].get("t") or "")
+                if "Char_T" in base_t or "char" in base_t.replace("unsigned char", ""):
+                    continue      # a position in the template text: truncated it is still inside the tag (a different text, not a different object)
+                for y in f.walk(idx):
+                    yn = f.nodes[y]
+                    if yn["k"] in ("MemberExpr", "CXXDependentScopeMemberExpr") and yn.get("ch") and (yn.get("t") or "").replace("const ", "") in ("Qentem::SizeT8", "SizeT8", "unsigned char"):
+                        index_fields.add(yn["n"])
+    if not index_fields:
+        r.broke("no 8-bit field of a tag record is used as a subscript or pointer offset by the renderer")
+        return r
+    r.notes.append("index fields found in the renderer: %s" % sorted(index_fields))
+    for f in m.functions:
+        if f.inst or not f.cfg or f.cls != "Qentem::TemplateCore":
+            continue
+        par = f.parents()
+        for x in f.walk():
+            n = f.nodes[x]
+            if n["k"] != "BinaryOperator" or n["op"] != "=":
+                continue
+            lh = f.nodes[f.strip(n["ch"][0])]
+            if lh["k"] not in ("MemberExpr", "CXXDependentScopeMemberExpr") or lh.get("n") not in index_fields:
+                continue
+            rh = f.nodes[f.strip(n["ch"][1])]
+            if rh["k"] not in ("CXXFunctionalCastExpr", "CStyleCastExpr", "CXXStaticCastExpr") or not rh.get("ch"):
+                continue       # a copy of another record's field of the same width
+            src = rh["ch"][0]
+            src_t = f.text(src)
+            srcs = set(f.nodes[y].get("d") for y in f.walk(src) if f.nodes[y]["k"] == "DeclRefExpr")
+            ctx.note_fn(f)
+            guarded = None
+            up = par.get(x)
+            child = x
+            while up is not None:
+                un = f.nodes[up]
+                if un["k"] == "IfStmt":
+                    for y in f.walk(un["cond"]):
+                        yn = f.nodes[y]
+                        if yn["k"] == "BinaryOperator" and yn["op"] in ("<", "<=", ">", ">="):
+                            a, b = yn["ch"]
+                            for (l_, r_, op) in ((a, b, yn["op"]), (b, a, {"<": ">", "<=": ">=", ">": "<", ">=": "<="}[yn["op"]])):
+                                k = f.const_value(f.strip_casts(r_))
+                                if k is None:
+                                    k = m.eval_nodes(f.nodes, f.strip_casts(r_))
+                                same = f.text(l_) == src_t or (srcs and set(f.nodes[z].get("d") for z in f.walk(l_) if f.nodes[z]["k"] == "DeclRefExpr") == srcs)
+                                if same and k is not None:
+                                    fits_then = (op == "<" and k <= 256) or (op == "<=" and k <= 255)
+                                    fits_else = (op == ">" and k <= 255) or (op == ">=" and k <= 256)
+                                    if (child == un.get("then") and fits_then) or (child == un.get("else") and fits_else):
+                                        guarded = up
+                    # `if (too big) { drop; break/return; }` in front of the store, same compound
+                child = up
+                up = par.get(up)
+            if guarded is None:
+                # an earlier sibling statement that leaves when the quantity does not fit
+                up = par.get(x)
+                child = x
+                while up is not None and guarded is None:
+                    un = f.nodes[up]
+                    if un["k"] == "CompoundStmt":
+                        ch = un.get("ch", [])
+                        if child in ch:
+                            for sib in ch[:ch.index(child)]:
+                                sn = f.nodes[sib]
+                                if sn["k"] == "IfStmt" and any(f.nodes[z]["k"] in ("ReturnStmt", "BreakStmt", "ContinueStmt") for z in f.walk(sn["then"])):
+                                    for y in f.walk(sn["cond"]):
+                                        yn = f.nodes[y]
+                                        if yn["k"] == "BinaryOperator" and yn["op"] in (">", ">="):
+                                            k = f.const_value(f.strip_casts(yn["ch"][1]))
+                                            if k is None:
+                                                k = m.eval_nodes(f.nodes, f.strip_casts(yn["ch"][1]))
+                                            same = f.text(yn["ch"][0]) == src_t or (srcs and set(f.nodes[z].get("d") for z in f.walk(yn["ch"][0]) if f.nodes[z]["k"] == "DeclRefExpr") == srcs)
+                                            if same and k is not None and ((yn["op"] == ">" and k <= 255) or (yn["op"] == ">=" and k <= 256)):
+                                                guarded = sib
+                    child = up
+                    up = par.get(up)
+            r.ob(f.q, f.text(x)[:60], guarded is not None, "`%s` was compared with the range of the 8-bit field before the store" % src_t[:30] if guarded is not None else
+                 "`%s` is narrowed to 8 bits and nothing on the way compared it with 255: the renderer uses `%s` as a position, and position 256 is position 0" % (src_t[:30], lh["n"]), f.loc(x))
+    return r
+
+
+def rule_size_rebuild(ctx, m, rid="PR-resize"):
+    """PR-resize (clause of the rehash discipline): the bucket chains of a hash table name slots by position.  A member that
+    sets the table's own size to a computed value (not the literal 0 of Clear/Reset, not the adoption of another table's size in
+    a move) changes which slots exist; before it returns the chains must be rebuilt (generateHash / resize) on every path, or
+    stale links from Sort-ed or reused slots cut a chain when the slot is filled again."""
+    r = Rule(rid, "a member that gives a hash table a computed size rebuilds the bucket chains before it returns", floor=2)
+    for f in m.functions:
+        if f.inst or not f.cfg or f.cls not in ("Qentem::HashTable", "Qentem::HArray", "Qentem::HList"):
+            continue
+        blocks = f.blocks()
+        for c in astq.calls(f, "setSize"):
+            rc = f.call_receiver(c)
+            if rc is not None and f.nodes[f.strip(rc)]["k"] != "CXXThisExpr":
+                continue
+            a = f.call_args(c)
+            if not a or f.const_value(f.strip_casts(a[0])) is not None:
+                continue
+            at = f.text(a[0])
+            if "src" in at or "other" in at:
+                continue      # a move adopts the other table together with its chains
+            ctx.note_fn(f)
+            start = dataflow.block_of(f, c)
+            bad = False
+            seen = set()
+            work = [(start, True)]
+            while work and not bad:
+                bid, first = work.pop()
+                if (bid, first) in seen:
+                    continue
+                seen.add((bid, first))
+                after = not first
+                rebuilt = False
+                for e in blocks[bid]["el"]:
+                    x = e.get("n")
+                    if not isinstance(x, int) or e.get("k"):
+                        continue
+                    if x == c:
+                        after = True
+                        continue
+                    if after and f.nodes[x]["k"] in ("CallExpr", "CXXMemberCallExpr") and (f.call_simple_name(x) or "") in ("generateHash", "resize", "Reset", "Clear", "clearHashTable"):
+                        rebuilt = True
+                        break
+                if rebuilt:
+                    continue
+                succ = dataflow.successors(f, blocks[bid])
+                if not succ or any(s_ == f.cfg.get("exit") for (s_, _, _) in succ):
+                    bad = True
+                for (s_, k_, p_) in succ:
+                    work.append((s_, False))
+            r.ob(f.sig if len(m.fns(f.q, required=False)) > 1 else f.q, f.text(c)[:50], not bad, "every path from here to the end of the member rebuilds the chains" if not bad else
+                 "a path returns after `%s` without rebuilding the bucket chains: links that still name the slots beyond the new size are followed when those slots are filled again" % f.text(c)[:40], f.loc(c))
+    return r
+
+
+def rule_capacity_size(ctx, m, rid="SB-capsize"):
+    """SB-capsize: the copying members of Array allocate storage only when the source is not empty, for exactly the elements it
+    holds.  The capacity they record is therefore the source's SIZE -- the quantity the emptiness test is about -- never its
+    capacity: an empty source with spare capacity (after Clear() or Reserve()) would leave a copy that claims room it does not
+    have, and the next append writes through a null pointer."""
+    r = Rule(rid, "Array's copying members record the source's size as capacity (the storage is allocated for exactly that)", floor=2)
+    for f in m.functions:
+        if f.inst or not f.cfg or f.cls != "Qentem::Array":
+            continue
+        base = f.name.split("<")[0]
+        if not ((base == "Array" or base == "operator=") and len(f.params) == 1 and f.params[0].get("ref") and not f.params[0].get("rref") and "Array" in f.params[0]["t"]):
+            continue
+        pn = f.params[0]["n"]
+        exprs = []
+        for i in f.d.get("inits", []):
+            if i.get("f") == "capacity_" or i.get("name") == "capacity_" or "capacity_" in str(i.get("n_name", "")):
+                exprs.append((i.get("n", -1), f.text(i["n"]) if i.get("n", -1) >= 0 else ""))
+        for c in astq.calls(f, "setCapacity"):
+            rc = f.call_receiver(c)
+            if rc is None or f.nodes[f.strip(rc)]["k"] == "CXXThisExpr":
+                exprs.append((c, f.text(f.call_args(c)[0])))
+        if not exprs:
+            # constructor initialiser not exported with a name: take every initialiser expression that mentions the parameter
+            for i in f.d.get("inits", []):
+                if i.get("n", -1) >= 0 and pn in f.text(i["n"]):
+                    exprs.append((i["n"], f.text(i["n"])))
+        for (node, t) in exprs:
+            ctx.note_fn(f)
+            ok = ("%s.Size()" % pn) in t and "Capacity" not in t
+            r.ob(f.sig, "capacity := %s" % t[:40], ok, "the recorded capacity is the size the storage is allocated for" if ok else
+                 "the recorded capacity is `%s`, but storage is only allocated for %s.Size() elements and only when that is not zero: a copy of an empty array with spare capacity has capacity and no storage" % (t[:40], pn),
+                 f.loc(node) if isinstance(node, int) and node >= 0 else "Include/Array.hpp:%d" % f.line)
+    return r
+
+
+def rule_append_keeps(ctx, m, rid="PR-keep"):
+    """PR-keep: the members that ADD to a sequence (Expect, Write, the appending operators, Buffer, InsertAt, Insert, expand) must
+    keep what it holds.  None of them reaches, through the class's own members, one that throws the content away (a member whose
+    body calls Reset()/Clear() or sets the length to the literal 0 before anything is copied: Reserve, Reset, Clear).  Call-graph
+    rule over the resolved members of StringStream, String and Array."""
+    r = Rule(rid, "the appending members of the sequences never reach a member that discards the content", floor=6)
+    GROW = ("Expect", "Write", "write", "operator+=", "operator<<", "Buffer", "InsertAt", "Insert", "expand", "Append")
+    for cls in ("Qentem::StringStream", "Qentem::String", "Qentem::Array"):
+        methods = [f for f in m.functions if not f.inst and f.cls == cls and f.cfg]
+        byname = {}
+        for f in methods:
+            byname.setdefault(f.name.split("<")[0], []).append(f)
+        droppers = set()
+        for f in methods:
+            nm = f.name.split("<")[0]
+            if nm in ("Reset", "Clear"):
+                droppers.add(nm)
+                continue
+            own_calls = [f.call_simple_name(c) for c in astq.calls(f) if f.call_receiver(c) is None or f.nodes[f.strip(f.call_receiver(c))]["k"] == "CXXThisExpr"]
+            if any(x in ("Reset", "Clear") for x in own_calls) and nm not in GROW and not nm.startswith("~") and not nm.startswith("operator=") and nm != cls.split("::")[-1]:
+                droppers.add(nm)
+        calls_own = {}
+        for f in methods:
+            nm = f.name.split("<")[0]
+            own = set(f.call_simple_name(c) for c in astq.calls(f) if (f.call_receiver(c) is None or f.nodes[f.strip(f.call_receiver(c))]["k"] == "CXXThisExpr") and f.call_simple_name(c) in byname)
+            calls_own[nm] = calls_own.get(nm, set()) | own
+        for nm in sorted(set(GROW) & set(byname)):
+            seen = set()
+            stack = [(nm, [nm])]
+            hit = None
+            while stack and hit is None:
+                cur, path = stack.pop()
+                if cur in seen:
+                    continue
+                seen.add(cur)
+                for nx in sorted(calls_own.get(cur, ())):
+                    if nx in droppers:
+                        hit = path + [nx]
+                        break
+                    stack.append((nx, path + [nx]))
+            for f in byname[nm][:1]:
+                ctx.note_fn(f)
+            r.ob("%s::%s" % (cls, nm), "calls among the class's own members", hit is None, "reaches none of the discarding members %s" % sorted(droppers) if hit is None else
+                 "reaches %s, which discards what the sequence holds: %s on a non-empty %s loses its content" % (" -> ".join(hit), nm, cls.split("::")[-1]),
+                 "Include/%s:%d" % (byname[nm][0].file.split("/Include/")[-1], byname[nm][0].line))
+    return r
+
+
+def rule_none_owns_nothing(ctx, m, rid="O18-none"):
+    """O18-none: a TagBit whose kind is None releases nothing (Clear() dispatches on the kind).  A member that marks an object None
+    must therefore not have handed it a block in the same breath: in every member of TagBit, an object (this / the parameter)
+    whose type_ is assigned TagType::None is not assigned a storage_ other than nullptr -- the block parked there would never be
+    released."""
+    r = Rule(rid, "a TagBit that is marked None is not given a block to hold", floor=1)
+    for f in m.functions:
+        if f.inst or not f.cfg or f.cls != "Qentem::Tags::TagBit":
+            continue
+        none_of, stor_of = {}, {}
+        for x in f.walk():
+            n = f.nodes[x]
+            if n["k"] == "BinaryOperator" and n["op"] == "=":
+                lh = f.nodes[f.strip(n["ch"][0])]
+                if lh["k"] in ("MemberExpr",) and lh.get("n") in ("type_", "storage_"):
+                    base = f.text(lh["ch"][0]) if lh.get("ch") and f.nodes[f.strip(lh["ch"][0])]["k"] != "CXXThisExpr" else "this"
+                    rt = f.text(n["ch"][1])
+                    if lh["n"] == "type_" and rt.endswith("None"):
+                        none_of[base] = x
+                    if lh["n"] == "storage_" and rt not in ("nullptr", "0"):
+                        stor_of[base] = (x, rt)
+        for base, x in sorted(none_of.items()):
+            ctx.note_fn(f)
+            bad = stor_of.get(base)
+            r.ob(f.sig, "%s.type_ = None" % base, bad is None, "`%s` is marked None and holds no block" % base if bad is None else
+                 "`%s` is marked None but `%s` parks a block in it: a TagBit of kind None releases nothing, the block and everything below it is lost" % (base, f.text(bad[0])[:50]), f.loc(x))
+    return r
+
+
+def rule_attr_siblings(ctx, m, rid="SB-attr"):
+    """SB-attr: parseLoopAttributes recognises the four attribute names (set, sort, value, group) with the same test, one copy per
+    name.  With the pattern constants of each copy abstracted (name, its length) the conditions must be identical: a copy
+    that is stricter or laxer than its siblings recognises its attribute in fewer or more spellings than the others
+    (`group = "k"` with blanks was not taken for the group attribute while `value = "v"` was)."""
+    r = Rule(rid, "the four attribute-name tests of parseLoopAttributes are the same test up to the attribute's name", floor=4)
+    fs = [f for f in m.functions if not f.inst and f.cfg and f.q == "Qentem::TemplateCore::parseLoopAttributes"]
+    if not fs:
+        r.broke("TemplateCore::parseLoopAttributes not found")
+        return r
+    f = fs[0]
+    ctx.note_fn(f)
+    inits = {}
+    for x in astq.nodes_of(f, "DeclStmt"):
+        for d in f.nodes[x]["decls"]:
+            if "d" in d and d.get("init", -1) >= 0:
+                inits[d["n"]] = f.text(d["init"])
+    forms = {}
+    for i in astq.nodes_of(f, "IfStmt"):
+        cond = f.nodes[i]["cond"]
+        eq = [c for c in astq.calls(f, "IsEqual", cond)]
+        if not eq:
+            continue
+        names = [nm for nm in ("Set", "Sort", "Value", "Group") if ("TagPatterns::%s," % nm) in f.text(eq[0]).replace(" ", "") or ("TagPatterns::%s)" % nm) in f.text(eq[0]).replace(" ", "") or
+                 ("::%s," % nm) in f.text(eq[0]).replace(" ", "")]
+        if len(names) != 1:
+            continue
+        t = f.text(cond)
+        for _ in range(3):      # locals defined through other locals
+            for k, v in inits.items():
+                t = re.sub(r"\b%s\b" % re.escape(k), "(" + v + ")", t)
+        t = t.replace(names[0] + "Length", "NAMELength").replace("::" + names[0] + ",", "::NAME,").replace("::" + names[0] + ")", "::NAME)")
+        t = re.sub(r"\s+", "", t)
+        while "((" in t and t.count("(") == t.count(")"):
+            t2 = t.replace("((", "(", 1)
+            break
+        forms[names[0]] = (t, i)
+    if len(forms) < 4:
+        r.broke("parseLoopAttributes: found the name test of %s only" % sorted(forms))
+        return r
+    # majority form
+    from collections import Counter
+    def canon(t):
+        return t.replace("(", "").replace(")", "")
+    cnt = Counter(canon(v[0]) for v in forms.values())
+    major = cnt.most_common(1)[0][0]
+    for nm, (t, i) in sorted(forms.items()):
+        ok = canon(t) == major
+        r.ob(f.q, "name test of `%s`" % nm.lower(), ok, "the same test as its siblings" if ok else "differs from the test the other attribute names use: `%s` is recognised in other spellings than they are" % nm.lower(), f.loc(i))
+    return r
+
+
+def rule_pointer_value_makers(ctx, m, rid="WHO-ptrvalue"):
+    """WHO-ptrvalue: a Value of the pointer kind borrows another Value: it is the caller's business to keep the target alive, which
+    is why only the two public entry points create one (SetPointerToValue, and AddPointerToValue through it).  No other code of
+    the library may call them: a library routine that builds its RESULT out of pointer values (GroupBy filling the grouped
+    value with pointers into its source) hands out borrows that die with an object the caller does not know it must keep."""
+    r = Rule(rid, "inside the library pointer-kind Values are created only by the two public entry points", floor=1)
+    for f in m.functions:
+        if f.inst or not f.cfg:
+            continue
+        for c in astq.calls(f):
+            nm = f.call_simple_name(c)
+            if nm not in ("SetPointerToValue", "AddPointerToValue"):
+                continue
+            ctx.note_fn(f)
+            ok = f.cls == "Qentem::Value" and f.name in ("AddPointerToValue", "SetPointerToValue")
+            r.ob(f.sig if len(m.fns(f.q, required=False)) > 1 else f.q, f.text(c)[:60], ok, "the public entry point itself" if ok else
+                 "a library routine stores a borrowed pointer (`%s`) in a Value it hands to its caller: the result is only valid while the object it points into lives" % f.text(f.call_args(c)[0])[:40] if f.call_args(c) else "", f.loc(c))
+    return r
+
+
+def rule_null_store(ctx, m, classes=("Qentem::String", "Qentem::StringStream"), rid="NULL-store"):
+    """NULL-store: a default-constructed or reset String / StringStream has no storage: Storage() is null and Length() is 0.  A
+    member that writes through its own Storage() without having allocated in the same call must have excluded that state: on
+    every path to the store a test established that the sequence is not empty or that the pointer is not null (must-analysis:
+    true edge of IsNotEmpty(), Length() != 0, Length() > k, x < Length(), p != nullptr; false edge of their negations).  A
+    non-strict bound (len <= Length()) does not exclude it: StepBack(0) on an empty String stored the terminator through null."""
+    r = Rule(rid, "a member writes through its own Storage() only where an empty (storage-less) object was excluded", floor=2)
+    for f in m.functions:
+        if f.inst or not f.cfg or f.cls not in classes or f.kind in ("ctor", "copyctor", "movector", "dtor"):
+            continue
+        if any((f.call_simple_name(c) or "") in ("allocate", "Allocate", "expand", "Expect", "Reserve", "Write", "write", "Buffer") for c in astq.calls(f)):
+            continue       # the member (re)allocates: covered by the ownership rules
+        ptrs = {}
+        for st_ in astq.nodes_of(f, "DeclStmt"):
+            for d in f.nodes[st_]["decls"]:
+                if d.get("tk") == "ptr" and d.get("init", -1) >= 0 and "d" in d:
+                    i0 = f.strip_casts(d["init"])
+                    n0 = f.nodes[i0]
+                    if n0["k"] in ("CallExpr", "CXXMemberCallExpr") and (f.call_simple_name(i0) or "") in ("Storage", "First") and \
+                            (f.call_receiver(i0) is None or f.nodes[f.strip(f.call_receiver(i0))]["k"] == "CXXThisExpr") and "const" not in (d.get("t") or "").split("*")[0]:
+                        ptrs[d["d"]] = d["n"]
+        # locals that start as the length (and, being only decremented or compared, never exceed it)
+        len_locals = set()
+        for st_ in astq.nodes_of(f, "DeclStmt"):
+            for d in f.nodes[st_]["decls"]:
+                if "d" in d and d.get("init", -1) >= 0 and f.text(d["init"]).replace("this.", "") in ("Length()", "Size()"):
+                    grows = any((f.nodes[y]["k"] == "UnaryOperator" and f.nodes[y]["op"] == "++" or f.nodes[y]["k"] == "CompoundAssignOperator" and f.nodes[y]["op"] == "+=" or
+                                 f.nodes[y]["k"] == "BinaryOperator" and f.nodes[y]["op"] == "=") and f.nodes[f.strip(f.nodes[y]["ch"][0])].get("d") == d["d"] for y in f.walk())
+                    if not grows:
+                        len_locals.add(d["n"])
+        stores = []
+        for x in f.walk():
+            n = f.nodes[x]
+            if n["k"] == "BinaryOperator" and n["op"] == "=":
+                lh = f.nodes[f.strip(n["ch"][0])]
+                base = None
+                if lh["k"] == "ArraySubscriptExpr":
+                    base = f.nodes[f.strip_casts(lh["ch"][0])]
+                elif lh["k"] == "UnaryOperator" and lh["op"] == "*":
+                    base = f.nodes[f.strip_casts(lh["ch"][0])]
+                if base is not None and base["k"] == "DeclRefExpr" and base.get("d") in ptrs:
+                    stores.append((x, base["d"]))
+        if not stores:
+            continue
+        ctx.note_fn(f)
+        blocks = f.blocks()
+
+        def establishes(c):
+            """True: the condition true means non-empty / non-null; False: the condition false means it; None"""
+            c = f.strip(c)
+            n = f.nodes[c]
+            if n["k"] == "UnaryOperator" and n["op"] == "!":
+                v = establishes(n["ch"][0])
+                return None if v is None else (not v)
+            t = f.text(c).replace(" ", "").replace("this.", "")
+            if n["k"] in ("CallExpr", "CXXMemberCallExpr") and (f.call_simple_name(c) or "") == "IsNotEmpty":
+                return True
+            if n["k"] in ("CallExpr", "CXXMemberCallExpr") and (f.call_simple_name(c) or "") == "IsEmpty":
+                return False
+            if n["k"] == "BinaryOperator":
+                a, b = n["ch"]
+                ta, tb = f.text(a).replace("this.", ""), f.text(b).replace("this.", "")
+                op = n["op"]
+                def is_len(s_):
+                    return s_ in ("Length()", "Size()") or s_ in len_locals
+                if op == "!=" and ((is_len(ta) and f.const_value(f.strip_casts(b)) == 0) or (f.nodes[f.strip_casts(a)].get("d") in ptrs and tb == "nullptr")):
+                    return True
+                if op == "==" and ((is_len(ta) and f.const_value(f.strip_casts(b)) == 0) or (f.nodes[f.strip_casts(a)].get("d") in ptrs and tb == "nullptr")):
+                    return False
+                if op == ">" and is_len(ta):
+                    return True
+                if op == "<" and is_len(tb):
+                    return True
+                if op == ">=" and is_len(ta) and (f.const_value(f.strip_casts(b)) or 0) >= 1:
+                    return True
+            return None
+        def nonzero_of(c, truth):
+            """name known to be non-zero on this edge"""
+            c = f.strip(c)
+            n = f.nodes[c]
+            while n["k"] == "UnaryOperator" and n["op"] == "!":
+                c = f.strip(n["ch"][0])
+                n = f.nodes[c]
+                truth = not truth
+            if n["k"] == "BinaryOperator" and n["op"] in ("!=", "==", ">") and f.const_value(f.strip_casts(n["ch"][1])) == 0:
+                if (n["op"] in ("!=", ">")) == truth:
+                    return f.text(n["ch"][0])
+            return None
+
+        def le_len_of(c, truth):
+            """X when the edge says X <= Length()"""
+            c = f.strip(c)
+            n = f.nodes[c]
+            while n["k"] == "UnaryOperator" and n["op"] == "!":
+                c = f.strip(n["ch"][0])
+                n = f.nodes[c]
+                truth = not truth
+            if n["k"] == "BinaryOperator":
+                ta, tb = f.text(n["ch"][0]).replace("this.", ""), f.text(n["ch"][1]).replace("this.", "")
+                if n["op"] == "<=" and tb in ("Length()", "Size()") and truth:
+                    return f.text(n["ch"][0])
+                if n["op"] == ">=" and ta in ("Length()", "Size()") and truth:
+                    return f.text(n["ch"][1])
+                if n["op"] == ">" and tb in ("Length()", "Size()") and not truth:
+                    return f.text(n["ch"][0])
+            return None
+        fact = {f.cfg["entry"]: (False, frozenset())}
+        work = [f.cfg["entry"]]
+        at = {}
+        it = 0
+        while work and it < 6000:
+            it += 1
+            bid = work.pop()
+            st = fact[bid]
+            for e in blocks[bid]["el"]:
+                x = e.get("n")
+                if isinstance(x, int) and not e.get("k"):
+                    at[x] = st[0] if x not in at else (at[x] and st[0])
+            for (s_, kind, payload) in dataflow.successors(f, blocks[bid]):
+                ne, nz = st
+                if kind in ("true", "false") and payload is not None:
+                    t = establishes(payload)
+                    if t is not None and (kind == "true") == t:
+                        ne = True
+                    z_ = nonzero_of(payload, kind == "true")
+                    if z_:
+                        nz = nz | {z_}
+                    l_ = le_len_of(payload, kind == "true")
+                    if l_ and l_ in nz:
+                        ne = True      # 0 < X <= Length()
+                if s_ not in fact:
+                    fact[s_] = (ne, nz)
+                    work.append(s_)
+                else:
+                    new_ = (fact[s_][0] and ne, fact[s_][1] & nz)
+                    if new_ != fact[s_]:
+                        fact[s_] = new_
+                        work.append(s_)
+        for (x, d) in stores:
+            ok = bool(at.get(x))
+            r.ob(f.sig if len(m.fns(f.q, required=False)) > 1 else f.q, f.text(x)[:50], ok, "the empty, storage-less state is excluded on every path to this store" if ok else
+                 "no test on the way here excludes an empty object whose Storage() is null (a bound such as `len <= Length()` lets 0 <= 0 through): the store goes through a null pointer", f.loc(x))
+    return r
+
+
+def rule_out_alias(ctx, m, rid="OUT-alias"):
+    """OUT-alias: a const member of Value that delivers its result through a `Value &` parameter reads this object while it
+    writes the parameter; called as v.GroupBy(v, ...) the first write (reset) destroys what it is about to read.  Such a member
+    separates the two cases first: every mutation of the parameter is reached only over the "distinct" edge of an identity test
+    of the parameter's address against this (must-analysis on the CFG), or after the member has finished (a move of a
+    local result into the parameter followed by a return)."""
+    r = Rule(rid, "a const Value member that fills a Value & parameter has excluded `&parameter == this` before it writes it", floor=1)
+    for f in m.functions:
+        if f.inst or not f.cfg or f.cls != "Qentem::Value" or not f.d.get("const", f.sig.rstrip().endswith("const")):
+            continue
+        outs = [p for p in f.params if p.get("ref") and not p.get("rref") and not p.get("pconst") and "*" not in p["t"] and
+                p["t"].replace("&", "").strip().split("<")[0].split("::")[-1] == "Value"]
+        if not outs:
+            continue
+        for p in outs:
+            muts = []
+            for c in astq.calls(f):
+                rc = f.call_receiver(c)
+                if rc is not None and f.nodes[f.strip(rc)].get("d") == p["d"] and (f.call_simple_name(c) or "") in ("reset", "Reset", "setTypeToObject", "setTypeToArray", "Clear"):
+                    muts.append(c)
+            for x in f.walk():
+                n = f.nodes[x]
+                if n["k"] in ("BinaryOperator", "CXXOperatorCallExpr") and n.get("op") == "=":
+                    lhs = f.call_args(x)[0] if n["k"] == "CXXOperatorCallExpr" else n["ch"][0]
+                    if f.nodes[f.strip(lhs)].get("d") == p["d"]:
+                        muts.append(x)
+            if not muts:
+                continue
+            ctx.note_fn(f)
+            blocks = f.blocks()
+
+            def ident(c):
+                """True if the condition true means &p == this; False if true means distinct; None"""
+                c = f.strip(c)
+                n = f.nodes[c]
+                if n["k"] == "UnaryOperator" and n["op"] == "!":
+                    v = ident(n["ch"][0])
+                    return None if v is None else (not v)
+                if n["k"] == "BinaryOperator" and n["op"] in ("==", "!="):
+                    t = f.text(c).replace(" ", "")
+                    if "this" in t and ("&" + p["n"]) in t:
+                        return n["op"] == "=="
+                return None
+            fact = {f.cfg["entry"]: None}      # None unknown, "same", "distinct"
+            work = [f.cfg["entry"]]
+            at = {}
+            it = 0
+            while work and it < 6000:
+                it += 1
+                bid = work.pop()
+                st = fact[bid]
+                for e in blocks[bid]["el"]:
+                    x = e.get("n")
+                    if isinstance(x, int) and not e.get("k"):
+                        at.setdefault(x, set()).add(st)
+                for (s_, kind, payload) in dataflow.successors(f, blocks[bid]):
+                    out = st
+                    if kind in ("true", "false") and payload is not None:
+                        v = ident(payload)
+                        if v is not None:
+                            out = "same" if (kind == "true") == v else "distinct"
+                    if s_ not in fact:
+                        fact[s_] = out
+                        work.append(s_)
+                    elif fact[s_] != out and fact[s_] is not None:
+                        fact[s_] = None
+                        work.append(s_)
+            for x in sorted(muts):
+                states = at.get(x, {None})
+                # on the "same" edge only a whole-result move into the parameter is fine (nothing of this is read afterwards)
+                ok = all(s_ == "distinct" or (s_ == "same" and f.nodes[x]["k"] != "CXXMemberCallExpr" and f.nodes[x]["k"] != "CallExpr") for s_ in states)
+                r.ob(f.sig, f.text(x)[:50], ok, "reached only where the parameter was found to be a different object (or as the final move of a finished result)" if ok else
+                     "`%s` is written while this object is still to be read and nothing excludes `&%s == this`: v.%s(v, ...) destroys its own input" % (p["n"], p["n"], f.name), f.loc(x))
+    return r
+
+
+def rule_recursion_bound(ctx, m, file_suffix, rid="REC-bound", floor=1, known_ok=()):
+    """REC-bound: the parsers recurse once per level of nesting in the TEXT they are given (a `[` inside a `[`, a `(` inside a
+    `(`), so the depth of the machine stack is chosen by whoever wrote the text.  For every cycle of the call graph among the
+    functions of one file that take the text (a pointer-to-const-character parameter): the cycle is cut by calls that pass
+    `depth + k` (k > 0) for an integer parameter `depth` and are reached only on the true edge of `depth < CONST` /
+    `depth <= CONST` -- i.e. removing those guarded, incrementing calls leaves no cycle.  Reported per strongly connected
+    component with one offending call named."""
+    from qlib import dataflow
+    r = Rule(rid, "every recursion on the nesting of the text carries a depth that is compared with a constant before it recurses", floor=floor)
+    fs = [f for f in m.functions if not f.inst and f.file.endswith(file_suffix) and f.cfg and
+          any(p.get("ptr") and p.get("pconst") and "Char_T" in (p.get("t") or "") for p in f.params)]
+    if not fs:
+        r.broke("no text-taking function found in %s" % file_suffix)
+        return r
+    by_name = {}
+    for f in fs:
+        by_name.setdefault((f.q.rsplit("::", 1)[0], f.q.rsplit("::", 1)[-1]), []).append(f)
+    idx = {id(f): f for f in fs}
+
+    def guarded_increment(f, c, g):
+        """call c in f (to g) passes P + k for an integer parameter P of f under the true edge of P < CONST"""
+        args = f.call_args(c)
+        for a in args:
+            an = f.nodes[f.strip_casts(a)]
+            while an["k"] == "ParenExpr":
+                an = f.nodes[f.strip_casts(an["ch"][0])]
+            if an["k"] == "BinaryOperator" and an["op"] == "+":
+                l_, r_ = f.nodes[f.strip_casts(an["ch"][0])], an["ch"][1]
+                k = f.const_value(r_)
+                if l_["k"] == "DeclRefExpr" and k is not None and k > 0 and any(p["n"] == l_.get("n") and p.get("tk") in ("uint", "sint") for p in f.params):
+                    pd = l_.get("d")
+                    # a dominating branch  P < CONST / P <= CONST  taken on its true edge
+                    for i in f.walk():
+                        cn = f.nodes[i]
+                        if cn["k"] == "BinaryOperator" and cn["op"] in ("<", "<=") and f.nodes[f.strip_casts(cn["ch"][0])].get("d") == pd and \
+                                m.eval_nodes(f.nodes, f.strip_casts(cn["ch"][1])) is not None:
+                            try:
+                                if dataflow.dominated_by_branch(f, c, i, True):
+                                    return True
+                            except Exception:
+                                pass
+        return False
+    edges = {}       # id(f) -> [(id(g), call, guarded)]
+    for f in fs:
+        ctx.note_fn(f)
+        rec = f.q.rsplit("::", 1)[0]
+        out = []
+        for c in astq.calls(f):
+            nm = f.call_simple_name(c)
+            if not nm:
+                continue
+            # which record: an explicit qualifier  X<...>::name(  or a receiver object names it; otherwise the caller's own
+            txt = f.text(c)
+            head = txt.split("(", 1)[0]
+            target = rec
+            if "::" in head:
+                qual = re.sub(r"<[^()]*>", "", head.rsplit("::", 1)[0]).split("::")[-1].strip()
+                cands_rec = [k[0] for k in by_name if k[1] == nm and k[0].split("::")[-1] == qual]
+                if not cands_rec:
+                    continue
+                target = cands_rec[0]
+            elif f.nodes[c]["k"] == "CXXMemberCallExpr" or "." in head or "->" in head:
+                rc = f.call_receiver(c)
+                if rc is None and f.nodes[c].get("ch"):
+                    # a dependent member call: the object is the first name below the callee expression
+                    refs = [y for y in f.walk(f.nodes[c]["ch"][0]) if f.nodes[y]["k"] in ("DeclRefExpr", "CXXThisExpr")]
+                    rc = refs[0] if refs else None
+                if rc is not None and f.nodes[f.strip(rc)]["k"] != "CXXThisExpr":
+                    rt = re.sub(r"<[^()]*>", "", f.nodes[f.strip(rc)].get("t") or "")
+                    cands_rec = [k[0] for k in by_name if k[1] == nm and k[0].split("::")[-1] in re.findall(r"\w+", rt)]
+                    if not cands_rec:
+                        continue
+                    target = cands_rec[0]
+            cands = by_name.get((target, nm), [])
+            na = len(f.call_args(c))
+            exact = [g for g in cands if len(g.params) == na]
+            for g in (exact or [g for g in cands if len(g.params) > na]):
+                out.append((id(g), c, guarded_increment(f, c, g)))
+        edges[id(f)] = out
+    # strongly connected components of the graph WITHOUT the guarded edges (Tarjan)
+    index, low, onst, st, comps = {}, {}, set(), [], []
+    counter = [0]
+
+    def strong(v):
+        work = [(v, 0)]
+        index[v] = low[v] = counter[0]
+        counter[0] += 1
+        st.append(v)
+        onst.add(v)
+        while work:
+            v_, pi = work[-1]
+            succ = [g for g, _, gd in edges[v_] if not gd]
+            if pi < len(succ):
+                work[-1] = (v_, pi + 1)
+                w = succ[pi]
+                if w not in index:
+                    index[w] = low[w] = counter[0]
+                    counter[0] += 1
+                    st.append(w)
+                    onst.add(w)
+                    work.append((w, 0))
+                elif w in onst:
+                    low[v_] = min(low[v_], index[w])
+            else:
+                work.pop()
+                if work:
+                    low[work[-1][0]] = min(low[work[-1][0]], low[v_])
+                if low[v_] == index[v_]:
+                    comp = []
+                    while True:
+                        w = st.pop()
+                        onst.discard(w)
+                        comp.append(w)
+                        if w == v_:
+                            break
+                    comps.append(comp)
+    for f in fs:
+        if id(f) not in index:
+            strong(id(f))
+    # all cycles of the full graph, for the count of what was looked at
+    any_rec = False
+    full_cyc = set()
+    for f in fs:
+        # reachable from f's successors back to f in the full graph?
+        seen, work = set(), [g for g, _, _ in edges[id(f)]]
+        while work:
+            x = work.pop()
+            if x in seen:
+                continue
+            seen.add(x)
+            work.extend(g for g, _, _ in edges[x])
+        if id(f) in seen:
+            full_cyc.add(id(f))
+    bad_fns = set()
+    for comp in comps:
+        cs = set(comp)
+        cyc = len(comp) > 1 or any(g == comp[0] and not gd for g, _, gd in edges[comp[0]])
+        if cyc:
+            bad_fns |= cs
+            names = sorted(idx[x].q.rsplit("::", 1)[-1] for x in comp)
+            f0 = sorted((idx[x] for x in comp), key=lambda f_: f_.line)[0]
+            off = [(idx[x], c) for x in comp for g, c, gd in edges[x] if g in cs and not gd]
+            fo, co = sorted(off, key=lambda t: (t[0].line, t[1]))[0]
+            r.ob(f0.q, "cycle " + " -> ".join(names), False,
+                 "the call `%s` in %s recurses with no depth that is compared with a constant: a text nested deeply enough (one level per `[`, `{` or `(`) exhausts the stack"
+                 % (fo.text(co)[:60], fo.q.rsplit("::", 1)[-1]), fo.loc(co))
+    for x in sorted(full_cyc - bad_fns, key=lambda x_: idx[x_].line):
+        f = idx[x]
+        r.ob(f.q, "recursion through " + f.q.rsplit("::", 1)[-1], True, "every cycle through this function passes a call of depth + k guarded by depth < CONST", "Include/%s:%d" % (f.file.split("/Include/")[-1], f.line))
+    if not full_cyc:
+        r.broke("%s: no recursion among the text-taking functions was found (the parsers are known to recurse)" % file_suffix)
     return r
